@@ -159,7 +159,7 @@ def numpy_reference(T, R, P, V0, g, sweeps):
 
 def numpy_solver(name, T, R, P, V0, g, eps, kmax, period=2):
     """independent numpy loop with the documented stop rule -> (values, iteration)"""
-    v, gain, it = V0.copy(), 0.0, 0
+    v, gain, it = V0.copy(), float(V0[-1]), 0
     hist = [V0.copy()]
     thr = eps if (name in ("rvi", "pvi") or g == 1) else eps * (1 - g) / g
     for _ in range(kmax):
